@@ -36,6 +36,22 @@ pub use options::{ManualEdge, Options, OptionsBuilder};
 use std::collections::{BTreeMap, VecDeque};
 pub(crate) const DEFAULT_TRANSLATION_BLOCK_BYTES: usize = 64;
 
+/// The lifters compute instruction, fall-through and return addresses with
+/// plain `u64` arithmetic. Refuse to lift a block which lies so close to the end
+/// of the address space that these computations would wrap around.
+pub(crate) fn ensure_block_fits_address_space(address: u64, length: usize) -> Result<(), Error> {
+    match address
+        .checked_add(length as u64)
+        .and_then(|end| end.checked_add(16))
+    {
+        Some(_) => Ok(()),
+        None => Err(Error::Custom(format!(
+            "Block of {} bytes at 0x{:x} reaches the end of the address space",
+            length, address
+        ))),
+    }
+}
+
 /// This trait is used by the translator to continually find and lift bytes from an underlying
 /// memory model.
 ///
